@@ -170,6 +170,13 @@ def configs(tier):
             for m in (MODELS[1:] if surf else [""]):
                 for b in single_backends:
                     out.append({"formats": [f], "model": m, "backend": b, "shielding": {}, "cooling": [], "grainspec": True, "only": tag})
+    # ODE modifiers may be written in the derived quantities of the dust model (the bundled ism example does): those
+    # must be declared wherever the modifier is emitted (right-hand side and Jacobian of every back-end)
+    for m in MODELS[1:]:
+        for b in BACKENDS:
+            for f in (("naunet",), ("leeds",), ("uclchem",)):
+                out.append({"formats": list(f), "model": m, "backend": b, "shielding": {}, "cooling": [], "grainspec": False, "link": False,
+                            "odemod": {"H": {"factors": ["-garea*mant"], "reactants": [["H"]]}, "H2": {"factors": ["0.5*garea"], "reactants": [["H", "H"]]}}})
     # networks without atomic hydrogen, every back-end, with and without the thermal equation
     for b in BACKENDS:
         for th in ([], ["CIC_HeI"]):
@@ -187,6 +194,8 @@ def build_network(cfg):
     from naunet.network import _reaction_factory, supported_reaction_class
 
     kw = dict(grain_model=cfg["model"], shielding=dict(cfg["shielding"]), cooling=list(cfg["cooling"]))
+    if cfg.get("odemod"):
+        kw["ode_modifier"] = {k_: {"factors": list(v_["factors"]), "reactants": [list(x) for x in v_["reactants"]]} for k_, v_ in cfg["odemod"].items()}
     req = ["H", "H2", "CO", "N2", "C", "N", "O"]  # every element of the probe species also as an atom (renormalisation has a row for it)
     if cfg["cooling"]:
         req += ["e-", "H+"]
@@ -246,7 +255,7 @@ def run_cfg(cfg):
 
     reset_globals()
     viols = []
-    label = ("no-H|" if cfg.get("noH") else "") + (f"only {cfg['only']}|" if cfg.get("only") else "") + f"{'+'.join(cfg['formats'])}|{cfg['model'] or 'none'}|{cfg['backend']}|sh={','.join(sorted(cfg['shielding'])) or '-'}|th={'on' if cfg['cooling'] else 'off'}|gs={int(cfg['grainspec'])}"
+    label = ("ode-modifier in dust-model deriveds|" if cfg.get("odemod") else "") + ("no-H|" if cfg.get("noH") else "") + (f"only {cfg['only']}|" if cfg.get("only") else "") + f"{'+'.join(cfg['formats'])}|{cfg['model'] or 'none'}|{cfg['backend']}|sh={','.join(sorted(cfg['shielding'])) or '-'}|th={'on' if cfg['cooling'] else 'off'}|gs={int(cfg['grainspec'])}"
     try:
         net, refused, err = build_network(cfg)
     except HarnessError:
